@@ -1865,8 +1865,43 @@ def beq_(a, b):
     return to_bool(a) == to_bool(b)
 
 
+def m_result_map_err(I, fr, a, ck):
+    v, f = a
+    res = Outs()
+    if 0 in v.alts and not g_false(v.alts[0][0]):
+        res.append(ret(mk('Result', 0, [v.alts[0][1][0]]), v.alts[0][0]))
+    if 1 in v.alts and not g_false(v.alts[1][0]):
+        for o in call_closure(I, fr, f, [v.alts[1][1][0]]):
+            res.append(Outcome(o.kind, gand(v.alts[1][0], o.guard), mk('Result', 1, [o.value]) if o.kind == 'ret' else None, o.mem, o.msg))
+    return res
+
+
+def m_result_map(I, fr, a, ck):
+    v, f = a
+    res = Outs()
+    if 1 in v.alts and not g_false(v.alts[1][0]):
+        res.append(ret(mk('Result', 1, [v.alts[1][1][0]]), v.alts[1][0]))
+    if 0 in v.alts and not g_false(v.alts[0][0]):
+        for o in call_closure(I, fr, f, [v.alts[0][1][0]]):
+            res.append(Outcome(o.kind, gand(v.alts[0][0], o.guard), mk('Result', 0, [o.value]) if o.kind == 'ret' else None, o.mem, o.msg))
+    return res
+
+
+def m_result_ok(I, fr, a, ck):
+    v = a[0]
+    alts = {}
+    if 0 in v.alts:
+        alts[1] = (v.alts[0][0], (v.alts[0][1][0],))
+    if 1 in v.alts:
+        alts[0] = (v.alts[1][0], ())
+    return Adt('Option', alts)
+
+
 def register_ints(M):
     A = M.add
+    A('Result', None, 'map_err', m_result_map_err)
+    A('Result', None, 'map', m_result_map)
+    A('Result', None, 'ok', m_result_ok)
     for tr, m in (('Shr', 'shr'), ('Shl', 'shl'), ('Add', 'add'), ('Sub', 'sub'), ('Mul', 'mul'), ('BitAnd', 'bitand'), ('BitOr', 'bitor'), ('BitXor', 'bitxor'), ('Not', 'not')):
         for t in ('usize', 'u64', 'i64', 'isize', 'u32', 'i32', 'u8', 'u16', 'bool'):
             A(t, tr, m, m_int_op_trait)
